@@ -23,3 +23,5 @@ def run(ctx):
     sig.s15_4_version_alignment_verify(ctx, P)
     sig.salt_fed_at_every_hasher(ctx, P)
     sig.s02_8_every_binding_verified(ctx, P)
+    from rules.tables import lossless_bool_subpackets
+    lossless_bool_subpackets(ctx, P)
